@@ -7,7 +7,7 @@ VERIF = os.path.dirname(os.path.dirname(os.path.dirname(os.path.abspath(__file__
 BUILD = os.environ.get('UTAP_BUILD_ROOT', os.path.join(VERIF, '.build'))
 
 ENV = dict(os.environ)
-ENV['ASAN_OPTIONS'] = 'detect_leaks=0:abort_on_error=1:symbolize=1:allocator_may_return_null=1:detect_stack_use_after_return=0'
+ENV['ASAN_OPTIONS'] = 'detect_leaks=0:abort_on_error=1:symbolize=1:allocator_may_return_null=1:detect_stack_use_after_return=0:handle_abort=1'
 ENV['UBSAN_OPTIONS'] = 'print_stacktrace=1:halt_on_error=1'
 ENV['ASAN_SYMBOLIZER_PATH'] = '/usr/bin/llvm-symbolizer-14'
 
@@ -116,6 +116,9 @@ def crash_descriptor(crash):
             m2 = re.search(r'The signal is caused by a (READ|WRITE) memory access', text)
             if re.search(r'address points to the zero page|Hint: address points to the zero page', text):
                 kind += ':null'
+    m = re.search(r"([A-Za-z_.+\-]+):\d+: [^\n]*Assertion '([^'\n]*)' failed", text)
+    if m:       # libstdc++ hardening (-D_GLIBCXX_ASSERTIONS): an out-of-range index, front() of an empty container, a null smart pointer ...
+        kind = 'libstdc++-assertion:%s:%s' % (m.group(1), m.group(2)[:60])
     m = re.search(r'runtime error: ([^\n]*)', text)
     if m and kind == 'unknown':
         msg = m.group(1)
